@@ -274,6 +274,84 @@ pub fn run_c13(a: &Args, rep: &mut Report) {
             rep.violation(&format!("C13:{kind}:{culprit}"), detail, json!({"kind": "asm-case", "text": text}));
         }
     }
+    // ---- one caller-owned buffer, refilled: long sources of EQUAL length at the SAME address ----
+    // (what a caller reading programs into a reused String does); every text has its own expected
+    // bytes, the last one of a group may be invalid
+    let groups = ((if a.tier == "quick" { 3_000.0 } else { 100_000.0 }) * a.scale) as u64 / a.nshards + 1;
+    let exit_bytes = Insn::new(EXIT, 0, 0, 0, 0).bytes();
+    let ja1_bytes = Insn::new(JA, 0, 0, 1, 0).bytes();
+    for g in 0..groups {
+        let members = 2 + rng.below(3) as usize;
+        let mut texts: Vec<(String, Option<Vec<u8>>)> = Vec::new();
+        for m in 0..members {
+            let lines = rng.range(30, 90) as usize;
+            let mut text = String::new();
+            let mut bytes: Vec<u8> = Vec::new();
+            let mut li = 0;
+            while li < lines {
+                let (name, kind, _) = &table[rng.below(table.len() as u64) as usize];
+                let ops = gen_ops(&mut rng, *kind);
+                let Some(enc) = ref_encode(&table, name, &ops) else { continue };
+                text.push_str(&render(&mut rng, name, &ops, Some(*kind)));
+                text.push('\n');
+                for i in enc {
+                    bytes.extend_from_slice(&i.bytes());
+                }
+                li += 1;
+            }
+            let invalid = m + 1 == members && rng.chance(1, 3);
+            if invalid {
+                text.push_str("exit r1, r2, r3\n");
+            }
+            texts.push((text, if invalid { None } else { Some(bytes) }));
+        }
+        let target = texts.iter().map(|t| t.0.len()).max().unwrap() + 40;
+        for (text, bytes) in texts.iter_mut() {
+            // pad with "exit\n" (5 bytes) and "ja +1\n" (6 bytes) lines to exactly `target`
+            let d = target - text.len();
+            let b6 = (0..=d / 6).find(|b| (d - 6 * b) % 5 == 0).unwrap();
+            let a5 = (d - 6 * b6) / 5;
+            for _ in 0..a5 {
+                text.push_str("exit\n");
+                if let Some(b) = bytes.as_mut() {
+                    b.extend_from_slice(&exit_bytes);
+                }
+            }
+            for _ in 0..b6 {
+                text.push_str("ja +1\n");
+                if let Some(b) = bytes.as_mut() {
+                    b.extend_from_slice(&ja1_bytes);
+                }
+            }
+        }
+        let mut buf = String::with_capacity(target);
+        for (mi, (text, expect)) in texts.iter().enumerate() {
+            buf.clear();
+            buf.push_str(text);
+            rep.case(Some(fnv(text.as_bytes()) ^ g));
+            rep.count("reused_buffer_sources");
+            let got = sys::catch(|| assemble(&buf));
+            let bad = match (expect, &got) {
+                (_, Err(p)) => Some(("panic", format!("assemble panicked: {p}"))),
+                (Some(e), Ok(Ok(b))) if e == b => None,
+                (Some(_), Ok(Ok(_))) => Some(("wrong-bytes", "bytes differ from the reference encoding of THIS text".to_string())),
+                (Some(_), Ok(Err(m))) => Some(("wrongly-rejected", format!("valid text refused: {m}"))),
+                (None, Ok(Ok(_))) => Some(("wrongly-accepted", "invalid text assembled".to_string())),
+                (None, Ok(Err(_))) => None,
+            };
+            if let Some((kind, detail)) = bad {
+                // does the same text assemble correctly from a fresh String? then the buffer history matters
+                let fresh = sys::catch(|| assemble(&text.clone()));
+                let fresh_ok = match (expect, &fresh) {
+                    (Some(e), Ok(Ok(b))) => e == b,
+                    (None, Ok(Err(_))) => true,
+                    _ => false,
+                };
+                rep.violation(&format!("C13:{kind}:reused-buffer:{}", if fresh_ok { "depends-on-earlier-call" } else { "text" }), format!("source #{mi} of {} equal-length sources assembled from one reused buffer: {detail}", texts.len()),
+                    json!({"kind": "asm-case", "text": text, "earlier_texts_in_same_buffer": texts[..mi].iter().map(|t| t.0.clone()).collect::<Vec<_>>()}));
+            }
+        }
+    }
 }
 
 fn class_of_ops(ops: &[Opnd]) -> String {
@@ -682,6 +760,35 @@ fn gen_prog(rng: &mut Rng, ops: &[u8], canonical: bool, nonneg: bool, max_len: u
     while v.len() < n {
         let opc = *rng.pick(ops);
         v.extend(rand_fields(rng, opc, canonical, nonneg));
+        // near-duplicates of an earlier instruction (same first slot, or same slot with one field
+        // changed): whatever a disassembler or assembler remembers per instruction must be keyed
+        // by ALL of it
+        if rng.chance(1, 6) && !v.is_empty() {
+            let mut k = rng.below(v.len() as u64) as usize;
+            if k > 0 && v[k - 1].opc == LDDW && v[k].opc == 0 {
+                k -= 1; // never start in the middle of a wide load
+            }
+            if v[k].opc == LDDW && k + 1 < v.len() {
+                // twin of a wide load: identical first slot, another upper half
+                let (a, mut b) = (v[k], v[k + 1]);
+                b.imm = *rng.pick(&[b.imm ^ i32::MIN, b.imm.wrapping_add(1), 0, -1, i32::MIN, if nonneg { 0x7fff_ffff } else { b.imm ^ 1 }]);
+                v.push(a);
+                v.push(b);
+            } else if v[k].opc != 0 {
+                let mut t = v[k];
+                let free_imm = !matches!(op_info(t.opc).unwrap().shape, Shape::Endian);
+                match if free_imm { rng.below(3) } else { 0 } {
+                    0 => {}
+                    1 => t.imm = if nonneg { (t.imm ^ 1) & 0x7fff_ffff } else { t.imm ^ i32::MIN },
+                    _ => t.off = t.off.wrapping_add(if canonical && !used_fields(op_info(t.opc).unwrap().shape).2 { 0 } else { 1 }),
+                }
+                let (_, _, _, ui) = used_fields(op_info(t.opc).unwrap().shape);
+                if canonical && !ui {
+                    t.imm = v[k].imm;
+                }
+                v.push(t);
+            }
+        }
     }
     v
 }
